@@ -32,6 +32,7 @@ def main():
     ap.add_argument('prop', nargs='?')
     ap.add_argument('--tier', default=os.environ.get('VERIF_TIER', 'quick'))
     ap.add_argument('--replay')
+    ap.add_argument('--replay-batch')
     ap.add_argument('--quiet', action='store_true')
     ap.add_argument('--procs', type=int, default=int(os.environ.get('VERIF_PROCS', '16')))
     ap.add_argument('--only', default=None, help='substring filter on job labels (debugging)')
@@ -43,6 +44,9 @@ def main():
     if args.replay:
         from symclif.driver import do_replay
         sys.exit(do_replay(args.replay, quiet=args.quiet))
+    if args.replay_batch:
+        from symclif.driver import do_replay_batch
+        sys.exit(do_replay_batch(args.replay_batch))
     if not args.prop:
         ap.error('property id required')
     from symclif.driver import run_property
